@@ -398,7 +398,8 @@ def _exhaustive_shard(run, base, nops, first_ops):
 
 NEW_SYMBOLS = [':', '::', '~', '^', '%', '&', '|', '<>', '**', '//', '!', '@',
                'xor', 'div', 'implies', '#', '#>', ';', '?', '??', '\\',
-               '=#', '+-', 'is', 'like']
+               '=#', '+-', 'is', 'like', 'not_in', 'pow2', 'is_set', 'x2y',
+               'not_in', 'is_set']
 
 
 @st.composite
@@ -411,7 +412,7 @@ def table_specs(draw, allow_invalid=False):
     for _ in range(draw(st.integers(0, 4))):
         t = P.Table(ops)
         sym = draw(st.sampled_from(pool))
-        pool.remove(sym)
+        pool = [x for x in pool if x != sym]
         kind = draw(st.sampled_from(['bin-l', 'bin-r', 'pre', 'suf']))
         create_group = draw(st.booleans())
         alias = draw(st.sampled_from([None, None, 'al_' + str(len(inserts))]))
